@@ -45,6 +45,20 @@ def run(p: Project, tier: str) -> Result:
     check_stall_delay_conversion(p, r)
     check_interrupters(p, reach, r)
     r.ctx = ''
+    r.rule('C13.R9', 'the stall state of a conveyor is changed only by its own process (set_conveyor_state is called from behaviour alone)', 8)
+    for ci in tables.edge_classes(p):
+        if ci.name != 'ConveyorBelt' or 'set_conveyor_state' not in ci.methods:
+            continue
+        for fi in ci.methods.values():
+            for c in walk_no_nested(fi.node):
+                if isinstance(c, ast.Call) and isinstance(c.func, ast.Attribute) and c.func.attr == 'set_conveyor_state':
+                    key = site(fi, c, 'state-change')
+                    if fi.name == 'behaviour':
+                        r.ok('C13.R9', key, 'decided by the belt process, which re-evaluates head / followers each time it wakes', src(fi.module), c.lineno)
+                    else:
+                        r.fail('C13.R9', key, f'{fi.name} changes the conveyor state directly: the belt process decides stall / release from what waits at the exit each '
+                                              f'time it is woken (put, get, arrival); a state set from outside is not re-evaluated when the reason for it goes away '
+                                              f'(a granted retrieval that is cancelled again leaves the belt MOVING behind a waiting head)', src(fi.module), c.lineno)
     r.rule('C13.R8', 'the conveyor hands its configured accumulating flag unchanged to a belt store that takes one', 1)
     for ci in tables.edge_classes(p):
         if ci.name != 'ConveyorBelt':
